@@ -327,7 +327,9 @@ PROPS = {
         suites=[("overlay", "v11"), ("overlay", "v11g"), ("overlay", "v11s")],
         level_text="linCheckFinal (memoised Wing-Gong search, re-validated by validLin and the final-state test) is sound: an accepted history has a "
                    "linearization that contains every operation, respects real time and reproduces every response "
-                   "(validLin_spec); an internal upgrade of the repaired code leaves the abstract store unchanged "
+                   "(validLin_spec) and ends in the observed idle store; a rejection by the exhaustive search is conclusive "
+                   "(rejection_is_conclusive: no order at all is a linearization — completeness by induction over the "
+                   "order, with a pigeonhole lemma); an internal upgrade of the repaired code leaves the abstract store unchanged "
                    "(upgrade_preserves_spec), the pinned one reverts passwords (D6). Real concurrent histories of the "
                    "agent (free-running clients with logical time stamps) are checked, and gated schedules whose exact "
                    "execution order is observed are replayed in that order; final directory = final abstract state.",
@@ -340,8 +342,9 @@ PROPS = {
              "The linearization must also END in the observed idle state (linCheckFinal). After quiescence the directory (users, admin "
              "flags, which known password authenticates) must equal the linearization's final state and pass Check.",
         trusted=[T_GO, T_CRYPTO, "logical clocks (one atomic counter) for invocation / response order"],
-        partial=["linCheck_complete (no linearizable history is rejected) is not proved; a rejection is reported as a "
-                 "correspondence disagreement", "cross-talk between SASL connections is covered by C05's concurrent batches"],
+        partial=["histories longer than 10 operations that the memoised search rejects are reported as a correspondence "
+                 "disagreement (the exhaustive, provably complete search `notLinearizable` confirms rejections up to 10 "
+                 "operations: rejection_is_conclusive)", "cross-talk between SASL connections is covered by C05's concurrent batches"],
     ),
     "C12": dict(
         modules=["Whawty.Props.C12"],
